@@ -4,6 +4,7 @@ go 1.26.0
 
 require (
 	github.com/anishathalye/porcupine v1.3.0
+	github.com/gorilla/websocket v1.5.0
 	github.com/jech/galene v0.0.0
 	github.com/pion/interceptor v0.1.45
 	github.com/pion/rtcp v1.2.17
@@ -15,7 +16,6 @@ require (
 	github.com/at-wat/ebml-go v0.18.0 // indirect
 	github.com/golang-jwt/jwt/v5 v5.3.1 // indirect
 	github.com/google/uuid v1.6.0 // indirect
-	github.com/gorilla/websocket v1.5.0 // indirect
 	github.com/jech/cert v0.0.0-20240301122532-f491cf43a77d // indirect
 	github.com/jech/samplebuilder v0.0.0-20241027120643-76c654ae55e1 // indirect
 	github.com/pion/datachannel v1.6.2 // indirect
